@@ -86,6 +86,15 @@ def c_score(ctx, case):
     one = sut.make_stats(pooled(sessions))
     got1 = float(m.score(model_arg(case), [one]))
     ctx.close(got, got1, "score([a,b,..]) == score([a+b+..])", rtol=1e-9, atol=1e-11 * mag)
+    # the machine must follow later assignments of its parameters (no stale cached products)
+    case2 = dict(case, U=np.array(case["U"]) * 0.5 + 0.05 * np.abs(case["U"]).mean(), D=np.array(case["D"]) * 1.5)
+    m.U = np.array(case2["U"])
+    m.D = np.array(case2["D"])
+    want2, x2, ux2, mean2 = ref_score(case2, sessions)
+    ctx.close(float(m.score(model_arg(case), stats)), want2, "score after U and D were re-assigned", rtol=1e-8,
+              atol=1e-10 * mag * 10 + 1e-9 * abs(want2))
+    ctx.close(np.asarray(m.estimate_x(stats), float), x2, "estimate_x after U and D were re-assigned", rtol=1e-7,
+              atol=1e-9 * (np.abs(x2).max() + 1e-300))
     # scoring must not change the probe statistics
     for s, before in zip(stats, snap):
         after = sut.stats_dict(s)
